@@ -128,10 +128,11 @@ example : PtraceOk ⟨1,2,3,4,5,6,7,8,9,10,11,12,13,14,15,0,16,0x33,0x246,17,0x2
     (count, reserved record array, then per thread: stack bytes, instruction-pointer window, context, and the record
     written into slot `idx`), appends exactly the thread-list stage of the image model, for every thread list: one
     record per thread, in order, no index shift -/
-theorem C04_refine_thread_list (b : Buf) (ts : List DThread)
+theorem C04_refine_thread_list (blamed : Nat) (hasCrash : Bool) (b : Buf) (ts : List DThread) (w : WSt)
     (hb : b.len + 4 + 48 * ts.length + (threadBlobs ts).length < 2 ^ 32) :
-    opThreadList b ts = some (⟨b.inner ++ threadListBody b.len ts⟩, ⟨ST_THREAD_LIST, 4 + 48 * ts.length, b.len⟩) :=
-  Refine_thread_list b ts hb
+    opThreadList blamed hasCrash b ts w = some (⟨b.inner ++ threadListBody b.len ts⟩, ⟨ST_THREAD_LIST, 4 + 48 * ts.length, b.len⟩,
+      ⟨w.blocks ++ threadBlocksAt (b.len + 4 + 48 * ts.length) ts, ctcAt blamed hasCrash (b.len + 4 + 48 * ts.length) ts w.ctc⟩) :=
+  Refine_thread_list blamed hasCrash b ts w hb
 
 /-- **C04 (image: one record per thread, each with its own context).** thread `k`'s record is in slot `k` of the
     thread list of the image and points at that thread's own context bytes -/
